@@ -914,6 +914,10 @@ func c12ChildMain(r *Run) {
 		namedID(t) // identities in a fixed order
 	}
 	w := &c12World{resp: resp, bankCh: make(chan *avro.ResourceBank, 64), locs: map[int]*time.Location{}}
+	// before anything else has introduced a type to the process: new types met by several
+	// goroutines at the same instant
+	c12FreshTypes(w, r.N(25, 120), 8)
+	c12BankChurn(w, 48, r.N(300, 3000))
 	w.items = c12Prepare(rng, r.N(8, 26))
 	if len(w.items) == 0 {
 		resp.Notes = append(resp.Notes, "no pool type could be prepared")
